@@ -113,14 +113,21 @@ func verifC20Unchanged(s Set, snap []Digest, what string) {
 }
 
 func verifC20SetUniverse4() *verifC20Universe {
-	hx := verifC20Hash(32, nil)
-	hy := "00000000000000000000000000000000"
+	// hashes chosen so that the ascending order ALTERNATES empty and non-empty blobs (an
+	// empty blob is followed by a non-empty one, and the other way round) and interleaves
+	// the two instance names
+	h := []string{
+		"00000000000000000000000000000000",
+		"55555555555555555555555555555555",
+		"aaaaaaaaaaaaaaaaaaaaaaaaaaaaaaaa",
+		"ffffffffffffffffffffffffffffffff",
+	}
 	md5 := verifC20Funcs[0]
 	return verifC20NewUniverse([]Digest{
-		verifC20NewDigest("a", md5, hx, 0), // the empty blob (by size) in instance a
-		verifC20NewDigest("a", md5, hy, 5),
-		verifC20NewDigest("b", md5, hx, 0),
-		verifC20NewDigest("b", md5, hy, 5),
+		verifC20NewDigest("a", md5, h[0], 0), // an empty blob (by size) in instance a
+		verifC20NewDigest("b", md5, h[1], 5),
+		verifC20NewDigest("b", md5, h[2], 0),
+		verifC20NewDigest("a", md5, h[3], 5),
 	})
 }
 
